@@ -35,7 +35,7 @@ def check(repo: Repo, R) -> None:
     from . import c12, c06
     R.run(c12.check, repo, shared.Retag(R, lambda r, k: "C09.3-hashed-names-process-independent" if r.startswith("C12.3") and ("_unique_name" in k or "naming_encoder" in k) else None,
                                  "the name of a generated module depends on something other than the parameter values (an address, a salted hash): equal parameters give different names"))
-    R.run(c06.check, repo, shared.Retag(R, lambda r, k: "C09.5-distinct-modules-distinct-names" if r.startswith("C06.2") and k.endswith("export_module_name") else None,
+    R.run(c06.check, repo, shared.Retag(R, lambda r, k: "C09.5-distinct-modules-distinct-names" if r.startswith("C06.2") and (k.endswith("export_module_name") or k.endswith("name-reserved-before-children") or k.endswith("own-export-only")) else None,
                                  "two different generated modules that share a qualified name are exported as one name defined twice, instead of being refused"))
     # a result enters the cache finished — named: whatever fails while naming it fails the call, and nothing half-named
     # is handed out by the next, identical call
@@ -100,6 +100,17 @@ def cache_discipline(repo: Repo, R):
     tc = shared.fails_unless(fr.node, "isinstance(call.params, call.gen.Params)")
     R.check(tc is not None and shared.cond_match(fr.node, body_calls[0], "isinstance(call.params, call.gen.Params)", True, use_prov=False), rule, key_of(fr, "params-type-checked"), fr.site, f"the parameter object is checked to be an instance of the generator's param class before the body runs: {tc is not None}",
             why="a call with a foreign parameter object is cached under a key that never equals a keyword call")
+    # the parameter object is the key: every declared parameter takes part in its equality and hash
+    fpc = repo.func(F_PARAMS, "paramclass")
+    offk = []
+    for c in au.calls_in(fpc.node, nested=True):
+        nm = dotted(c.func) or ""
+        if nm.split(".")[-1] in ("field", "dataclass", "make_dataclass", "Field"):
+            for k in c.keywords:
+                if k.arg in ("compare", "hash", "eq") and isinstance(k.value, ast.Constant) and k.value.value is False:
+                    offk.append(f"`{ast.unparse(c)[:70]}`")
+    R.check(not offk, rule, key_of(fpc, "every-field-compared"), fpc.site, "paramclass keeps every declared parameter in the equality and hash of the parameter object" if not offk else f"paramclass takes fields out of the comparison: {offk}",
+            why="two generator calls that differ only in a parameter declared with default_factory share one cache key: MosStack(unit=Pmos()) returns the stack built for unit=Nmos()")
     # key eq / hash
     ci = repo.cls(F_GENERATOR, "GeneratorCall")
     eq, hs = ci.methods.get("__eq__"), ci.methods.get("__hash__")
